@@ -19,8 +19,10 @@ def setup():
 
 
 def dispatch(pid, tier):
-    from . import layout
+    from . import layout, graph
     table = {
+        "C09": lambda: graph.run_graph("C09", tier),
+        "C10": lambda: graph.run_graph("C10", tier),
         "C01": lambda: layout.run_layout("C01", tier),
         "C02": lambda: layout.run_layout("C02", tier),
         "C03": lambda: layout.run_layout("C03", tier),
